@@ -60,6 +60,18 @@ CHECKS.update({
          "DESIGN.md 4.C14", TB, "E-IN"),
 })
 
+CHECKS.update({
+ "C17": ("exploration", "exhaustive enumeration of small upstream word files (all files of <=3/4 lines over a line alphabet, trailing-LF variants, size ladder, canonical lists) fed to the real generator binary over loopback",
+         "The real update-wordlist binary is executed for every enumerated input file; each generated file must parse, declare the promised variable and contain exactly the non-empty input lines; the canonical run must reproduce the committed lists and compile.",
+         "DESIGN.md 4.C17", TB + "; verif hook in update-wordlist (transport-level redirect); loopback networking", "E-GEN"),
+})
+
+CHECKS.update({
+ "C12": ("exploration", "stateless schedule exploration with preemption bounding (controlled cooperative scheduler over an instrumented copy of the package, sync shims, vector-clock happens-before detector); supplementary free-running -race pass",
+         "For 54 (quick) / 100+ (thorough) closed scenarios of 2-3 goroutines with forced collisions on cold lazily built state, every schedule with at most 2 (thorough 3) preemptions at variable-level scheduling points, and every schedule with at most 1 (thorough 2) preemptions at statement-level scheduling points, is executed from a cold package state; each call must return what it returns alone, no deadlock, no happens-before race. Outside the bound: more than 3 goroutines, more preemptions, interleavings inside a single statement (only the sampling race pass reaches those), weak-memory effects.",
+         "DESIGN.md 2.5, 4.C12", TB + "; instrumenter and shims (semantically neutral insertions); generated state accessor; Go race detector for the supplementary pass", "E-SCHED"),
+})
+
 NOT_YET = {
 }
 
